@@ -41,6 +41,9 @@ def configs(tier):
             cfgs.append({"name": f"function-K{K}-{via}", "kind": "function", "K": K, "W": 3 if q else 4, "via": via})
         cfgs.append({"name": f"marginal-sampling-K1-{via}", "kind": "sampling", "K": 1, "W": 2, "n": 2, "via": via})
     cfgs.append({"name": "marginal-direct-big-box", "kind": "bigbox", "via": "direct"})
+    for via in ("direct", "enum"):
+        cfgs.append({"name": f"marginal-direct-K2-zero-values-{via}", "kind": "marginal", "K": 2, "W": 3, "via": via, "zero_at": True})
+        cfgs.append({"name": f"function-vectorisable-{via}", "kind": "vecfn", "via": via})
     cfgs.append({"name": "marginal-sampling-K1-direct-n3", "kind": "sampling", "K": 1, "W": 3, "n": 3, "via": "direct"})
     cfgs.append({"name": "marginal-sampling-K2-direct", "kind": "sampling", "K": 2, "W": 2, "n": 2 if q else 3, "via": "direct"})
     if not q:
@@ -138,6 +141,20 @@ def path(ctx, cfg):
                     twin=(set(jdd) == set(cnt) and all(close(jdd[t] * L, cnt[t] + 1) for t in cnt)))
         ctx.observe("jdd", sorted((list(k), v) for k, v in jdd.items()))
         return
+    if kind == "vecfn":
+        # a joint function written with arithmetic only, so it also accepts numpy arrays; not symmetric in its arguments
+        fpv = lambda jd: (1.0 + jd[0]) / (2.0 + jd[1]) ** 2
+        bn = [(0, 2), (1, 4)]
+        obj = ctx.guard("loader-raised", make, ctx, JointDegreeFunction, "function", {JN.MOTIF_SIZES: [2, 3], JN.FP: fpv, JN.LOW_HIGH_DEGREE_BOUND: bn}, via)
+        jdd = obj.jdd
+        ex, inc = readings(bn)
+        which = ex if sorted(jdd) == sorted(ex) else inc if sorted(jdd) == sorted(inc) else None
+        ctx.require(which is not None, "function-support", f"vectorisable fp: support {sorted(jdd)}", sig="function-support")
+        if which:
+            j0 = which[0]
+            bad = [jd for jd in which if not close(float(jdd[jd]) * fpv(j0), float(jdd[j0]) * fpv(jd))]
+            ctx.require(not bad, "function-values", f"vectorisable fp: values at {bad} are not fp(jd) (up to a common factor)", sig="function-values:vectorised")
+        return
     if kind == "bigbox":
         # 320 x 321 cells with concrete marginals: still the exact normalised product on the full box, and no random draw in direct mode
         f0 = lambda k: 1.0 / (1 + k)
@@ -175,10 +192,22 @@ def path(ctx, cfg):
     def f(i, k):
         k = ctx.fork_int(k)
         if (i, k) not in table:
-            table[(i, k)] = ctx.real(f"f{i}_{k}", 0, lo_strict=True)
+            if cfg.get("zero_at") and ctx.fork_bool(ctx.bool(f"zero{i}_{k}")):
+                table[(i, k)] = 0.0  # a marginal may vanish at some degrees (e.g. even degrees only)
+            else:
+                table[(i, k)] = ctx.real(f"f{i}_{k}", 0, lo_strict=True)
         return table[(i, k)]
 
     desc = f"{kind} bounds={bnds}"
+    if cfg.get("zero_at"):
+        # decide the zero pattern up front; every dimension keeps a positive value inside the smaller reading of its range,
+        # so that some joint degree has positive mass (otherwise no distribution is described)
+        for i, (lo, hi) in enumerate(bnds):
+            for k in range(lo, hi + 1):
+                f(i, k)
+            if all(isinstance(table[(i, k)], float) and table[(i, k)] == 0.0 for k in range(lo, hi)):
+                from symx.core import PathAbort
+                raise PathAbort("precondition false")
     if kind == "marginal":
         params = {JN.MOTIF_SIZES: [2, 3, 4][:K], JN.ARR_FP: [lambda k, i=i: f(i, k) for i in range(K)], JN.LOW_HIGH_DEGREE_BOUND: list(bnds)}
         obj = ctx.guard("loader-raised", make, ctx, JointDegreeMarginal, "marginal", params, via)
@@ -199,6 +228,11 @@ def path(ctx, cfg):
         Z = 0
         for jd in which:
             Z = Z + prod(jd)
+        if cfg.get("zero_at"):
+            if not isinstance(Z, (int, float)):
+                ctx.assume(Z > 0)
+            elif Z <= 0:
+                return  # every cell vanishes: no distribution is described
         ctx.require(all_(eq(jdd[jd] * Z, prod(jd)) for jd in which), "marginal-product-law", f"{desc}: values are not the normalised product of the marginals",
                     twin=all_(eq(jdd[jd] * Z, prod(jd) * 2) for jd in which), logic="QF_NRA")
         tot = 0
